@@ -22,20 +22,28 @@ def run(tier, seed):
                      consts=ec.consts({1, 3}, {"defer", "act", "script", "loop", "flags", "break", "later", "prio"}, 10 if q else 16,
                                       scriptops={"defer", "break", "act"}, durs=(0, 1), nd=36, maxiter=6),
                      simulate=40 if q else 400, depth=600))
+    # max_dispatch_interval as a time limit: callbacks that take time (script op adv) end the pass over a limited queue once
+    # the interval is used up; the loop's cached time (tv_cache) is what event_add / persist re-scheduling inside callbacks see
+    for (mi, mcb, lp) in ([(0, 0, 1), (1, 0, 0)] if q else [(1, 0, 0), (0, 0, 1), (2, 2, 0), (3, 0, 1)]):
+        gens.append(dict(name="C03_rand_intv%d_m%d_l%d" % (mi, mcb, lp),
+                         consts=ec.consts({1, 3, 4}, {"add", "act", "loop", "script", "prio", "flags"}, 14, durs=(0, 1, 2), maxcb=mcb,
+                                          limitprio=lp, scriptops={"adv", "upd", "add", "act", "cont"}, maxintv=mi),
+                         simulate=8 if q else 60, depth=400, constraint="GenConstraintNT"))
     plan = {
         "mc": [("C03_mc", ec.consts({1, 3}, {"act", "later", "prio", "script", "loop", "flags", "break", "exit", "add"}, 3 if q else 4,
                                     durs=(0, 1), scriptops={"break", "cont", "act", "later"}, maxcb=1, limitprio=0))],
         "gen": [dict(name="C03_exh", consts=ec.consts({1, 3}, {"act", "later", "script", "loop", "flags", "exit"},
                                                       3, durs=(0,), scriptops={"break", "cont", "act", "later"}, nprio=2))] + gens,
         "need_ops": ["act", "later", "prio", "loop", "break", "cont", "exit", "script:break", "script:cont", "script:act",
-                     "script:later", "script:exit", "cb:cb", "defer", "cb:def"],
+                     "script:later", "script:exit", "cb:cb", "defer", "cb:def", "script:adv", "script:upd"],
         "rule": "TLC generates histories mixing activations at different priorities from outside and from inside callbacks "
                 "(callback scripts: loopbreak, loopcontinue, loopexit, event_active, active_later, del, add), all loop flag "
                 "combinations and base configurations (max_dispatch_callbacks x limit_callbacks_after_prio); replayed on the "
-                "real loop, the exact callback order, loop return value, got_break/got_exit and pending sets are compared. "
+                "real loop, the exact callback order, loop return value, got_break/got_exit and pending sets are compared; "
+                "max_dispatch_interval families let callbacks consume virtual time so that the time limit ends the pass. "
                 "PrioOrderInv, BreakStops, LaterPromoted are checked by TLC on the model.",
         "assumptions": ["equal heap deadlines are excluded when callbacks have side effects (order unspecified)",
-                        "max_dispatch_interval as a time limit is not exercised (callback-count limit only)"],
+                        "max_dispatch_interval: intervals of 0..3 ticks with callbacks that take 1-2 ticks"],
     }
     return ec.standard_run("C03", tier, seed, plan)
 
